@@ -80,8 +80,27 @@ Definition spec_legacy_preimage (t : tx) (idx : nat) (script_code : bytes) (ht :
       varint (lenL outs); S_all S_txout outs;
       u32 (t_locktime t); u32 (ht mod 256) ]).
 
+(* ANYONECANPAY (no RANGEPROOF; SINGLE only for idx = 0): the input vector holds the signing input alone, with the
+   script code and its own sequence; outputs as for the base type *)
+Definition spec_legacy_acp_preimage (t : tx) (idx : nat) (script_code : bytes) (ht : N) : option bytes :=
+  let bt := base_type ht in
+  match nth_error (t_ins t) idx with
+  | None => None
+  | Some own =>
+      if (bt =? 3) && (length (t_outs t) <=? idx)%nat then None
+      else
+        let outs := if bt =? 2 then [] else if bt =? 3 then firstn 1 (t_outs t) else t_outs t in
+        Some (layout [
+          u32 (t_version t);
+          varint 1; S_outpoint_flags own; var_slice script_code; u32 (in_seq own);
+          match in_iss own with Some s => S_issuance s | None => [] end;
+          varint (lenL outs); S_all S_txout outs;
+          u32 (t_locktime t); u32 (ht mod 256) ])
+  end.
+
 Definition spec_legacy_digest t idx script_code ht : bytes :=
-  match spec_legacy_preimage t idx script_code ht with
+  match (if anyonecanpay ht then spec_legacy_acp_preimage t idx script_code ht
+         else spec_legacy_preimage t idx script_code ht) with
   | Some p => dsha256 p
   | None => repeat x00 31 ++ [x01]
   end.
